@@ -16,6 +16,7 @@ import (
 	"verifharness/corpus"
 	"verifharness/pipeline"
 	"verifharness/spec"
+	"verifharness/translate"
 )
 
 func die(f string, a ...interface{}) {
@@ -32,6 +33,17 @@ func main() {
 		prepare(os.Args[2:])
 	case "eval":
 		eval(os.Args[2:])
+	case "translate": // vh translate <repo> <out.v>: regenerates coq/Generated/Src.v; exit 3 if the content changed
+		txt := translate.Translate(os.Args[2])
+		old, _ := ioutil.ReadFile(os.Args[3])
+		if string(old) == txt {
+			return
+		}
+		os.MkdirAll(filepath.Dir(os.Args[3]), 0o755)
+		if err := ioutil.WriteFile(os.Args[3], []byte(txt), 0o644); err != nil {
+			die("%v", err)
+		}
+		os.Exit(3)
 	case "textprobe": // debug: vh textprobe <run> <repo> <tier> <seed>
 		var seed int64
 		fmt.Sscan(os.Args[5], &seed)
